@@ -24,21 +24,32 @@ type Spec struct {
 	Chain   string
 	Collide bool // offer colliding bridger / external addresses and out-of-bounds stakes
 	Rewards bool // offer redelegate / withdraw-reward / edit-bridger
+	Focus   bool // narrowed alphabet (o2's life cycle only: blocks, removal, top-up, unbond; o1 confirms) for deeper histories
 	w       *world.World
 	os      []scen.Oracle // o1 (big stake), o2 (to be removed), o3 (approved later)
 }
 
-func (s *Spec) Name() string { return fmt.Sprintf("c13/%s/collide=%v/rewards=%v", s.Chain, s.Collide, s.Rewards) }
+func (s *Spec) Name() string { return fmt.Sprintf("c13/%s/collide=%v/rewards=%v/focus=%v", s.Chain, s.Collide, s.Rewards, s.Focus) }
 
 // Model: what each oracle transferred net of penalties paid, and how often it was paid out.
 type Model struct {
 	Staked  map[string]string // oracle -> DelegateAmount the model expects
 	Paid    map[string]int    // oracle -> number of successful unbonds
 	Removed map[string]bool
+	// RemovedAt: block time (unix seconds) at which governance removed the oracle; Due: an end-blocker has run at a
+	// block time past RemovedAt + unbonding time, i.e. whatever was unbonding has matured
+	RemovedAt map[string]int64
+	Due       map[string]bool
 }
 
 func (m *Model) Clone() explore.Model {
-	c := &Model{Staked: map[string]string{}, Paid: map[string]int{}, Removed: map[string]bool{}}
+	c := &Model{Staked: map[string]string{}, Paid: map[string]int{}, Removed: map[string]bool{}, RemovedAt: map[string]int64{}, Due: map[string]bool{}}
+	for k, v := range m.RemovedAt {
+		c.RemovedAt[k] = v
+	}
+	for k, v := range m.Due {
+		c.Due[k] = v
+	}
 	for k, v := range m.Staked {
 		c.Staked[k] = v
 	}
@@ -61,6 +72,9 @@ func (m *Model) Canon() []byte {
 	for _, k := range ks {
 		fmt.Fprintf(&b, "%s=%s/%d/%v|", k, m.Staked[k], m.Paid[k], m.Removed[k])
 	}
+	for _, k := range []string{"o1", "o2", "o3"} {
+		fmt.Fprintf(&b, "%s@%d/%v|", k, m.RemovedAt[k], m.Due[k])
+	}
 	return b.Bytes()
 }
 
@@ -78,7 +92,7 @@ func (s *Spec) Init() *explore.State {
 	w.MustDeliver(ctx, scen.BondMsg(s.Chain, s.os[0], w.Vals[0].ValAddr(), world.FX(40000)))
 	w.MustDeliver(ctx, scen.BondMsg(s.Chain, s.os[1], w.Vals[0].ValAddr(), world.FX(10000)))
 	scen.SetParams(w, ctx, s.Chain, func(p *cctypes.Params) { p.SignedWindow = window })
-	m := &Model{Staked: map[string]string{"o1": world.FX(40000).String(), "o2": world.FX(10000).String()}, Paid: map[string]int{}, Removed: map[string]bool{}}
+	m := &Model{Staked: map[string]string{"o1": world.FX(40000).String(), "o2": world.FX(10000).String()}, Paid: map[string]int{}, Removed: map[string]bool{}, RemovedAt: map[string]int64{}, Due: map[string]bool{}}
 	return &explore.State{W: w, Ctx: ctx, Model: m}
 }
 
@@ -126,7 +140,7 @@ func (s *Spec) Ops(st *explore.State) []explore.Op {
 	max := thr.MulRaw(k.GetOracleDelegateMultiple(ctx))
 
 	// governance list updates
-	if !k.IsProposalOracle(ctx, o3.Acct.Bech()) {
+	if !k.IsProposalOracle(ctx, o3.Acct.Bech()) && !s.Focus {
 		ops = append(ops, explore.Op{Name: "ApproveO3", Run: func(c *explore.State) {
 			list := []scen.Oracle{o1, o3}
 			if k.IsProposalOracle(c.Ctx, o2.Acct.Bech()) {
@@ -147,11 +161,12 @@ func (s *Spec) Ops(st *explore.State) []explore.Op {
 			c.Accepted, c.Outcome = r.OK(), map[bool]string{true: "ok", false: "rejected"}[r.OK()]
 			if r.OK() && had {
 				c.Model.(*Model).Removed["o2"] = true
+				c.Model.(*Model).RemovedAt["o2"] = c.Ctx.BlockTime().Unix()
 			}
 		}})
 	}
 	// bonding of o3
-	if !k.HasOracle(ctx, o3.Acct.Acc()) && m.Paid["o3"] == 0 {
+	if !k.HasOracle(ctx, o3.Acct.Acc()) && m.Paid["o3"] == 0 && !s.Focus {
 		ops = append(ops, s.bondOp("Bond(o3,min)", o3, thr, o3.Bridger, o3.ExtAddr, ""))
 		if s.Collide {
 			ops = append(ops, s.bondOp("Bond(o3,min-1)", o3, thr.SubRaw(1), o3.Bridger, o3.ExtAddr, "below-minimum"))
@@ -167,7 +182,7 @@ func (s *Spec) Ops(st *explore.State) []explore.Op {
 			continue
 		}
 		// top-up (pays pending penalty, re-onlines)
-		if orc.DelegateAmount.LT(max.QuoRaw(2)) && (o.Name != "o1" || !orc.Online) {
+		if orc.DelegateAmount.LT(max.QuoRaw(2)) && (o.Name != "o1" || !orc.Online) && !(s.Focus && o.Name != "o2") {
 			ops = append(ops, explore.Op{Name: "AddDelegate(" + o.Name + ")", Run: func(c *explore.State) {
 				pre, _ := k.GetOracle(c.Ctx, o.Acct.Acc())
 				penalty := pre.GetSlashAmount(k.GetSlashFraction(c.Ctx))
@@ -213,7 +228,7 @@ func (s *Spec) Ops(st *explore.State) []explore.Op {
 			}
 		}
 		// confirm the latest oracle set
-		if osn := k.GetLatestOracleSet(ctx); osn != nil && orc.Online && k.GetOracleSetConfirm(ctx, osn.Nonce, o.Acct.Acc()) == nil {
+		if osn := k.GetLatestOracleSet(ctx); osn != nil && orc.Online && k.GetOracleSetConfirm(ctx, osn.Nonce, o.Acct.Acc()) == nil && !(s.Focus && o.Name != "o1") {
 			bridger := orc.BridgerAddress
 			ops = append(ops, explore.Op{Name: "ConfirmOS(" + o.Name + ")", Run: func(c *explore.State) {
 				r := s.w.Deliver(c.Ctx, &cctypes.MsgOracleSetConfirm{ChainName: s.Chain, BridgerAddress: bridger, ExternalAddress: o.ExtAddr, Nonce: osn.Nonce,
@@ -273,6 +288,9 @@ func (s *Spec) unbondOp(o scen.Oracle) explore.Op {
 				c.Violate("unbond-deletes-records", sig("unbond-kept-record"), o.Name)
 			}
 			delete(m.Staked, o.Name)
+		} else if m.Removed[o.Name] && m.Due[o.Name] && !matured {
+			c.Outcome = "rejected-stake-never-released"
+			c.Violate("removed-oracle-can-withdraw-after-unbonding", sig("removed-oracle-stake-not-released"), fmt.Sprintf("oracle %s was removed by governance more than the unbonding time ago, but its stake never came back (still delegated: %v, still unbonding: %v, delegate account holds %s) and unbond is refused: %v", o.Name, stillDelegated, stillUnbonding, dBal, r.Err))
 		} else if matured && m.Removed[o.Name] {
 			c.Outcome = "rejected-after-maturity"
 			c.Violate("removed-oracle-can-withdraw-after-unbonding", sig("unbond-refused-after-unbonding-period"), fmt.Sprintf("oracle %s was removed by governance, its unbonding completed (delegate account holds %s) but unbond is refused: %v", o.Name, dBal, r.Err))
@@ -315,6 +333,14 @@ func (s *Spec) blockOp(name string, dt time.Duration) explore.Op {
 		}
 		objs := s.objects(c.Ctx)
 		h := uint64(c.Ctx.BlockHeight())
+		if ut, err := s.w.App.StakingKeeper.UnbondingTime(c.Ctx); err == nil {
+			mm := c.Model.(*Model)
+			for name, at := range mm.RemovedAt {
+				if c.Ctx.BlockTime().Unix() > at+int64(ut.Seconds()) {
+					mm.Due[name] = true // the end-blocker about to run matures everything that started unbonding at removal
+				}
+			}
+		}
 		next, res := s.w.NextBlock(c.Ctx, dt)
 		c.Ctx = next
 		if res.Panic != nil || res.Err != nil {
@@ -441,11 +467,13 @@ func init() {
 				return []registry.Job{
 					{Name: "eth-full", Spec: &Spec{Chain: "eth", Collide: true, Rewards: true}, Depth: 6, ShardDepth: 2},
 					{Name: "bsc-lifecycle", Spec: &Spec{Chain: "bsc"}, Depth: 8, ShardDepth: 2},
+					{Name: "eth-o2-life-cycle-deep", Spec: &Spec{Chain: "eth", Focus: true}, Depth: 13, ShardDepth: 2},
 				}
 			}
 			return []registry.Job{
 				{Name: "eth-lifecycle", Spec: &Spec{Chain: "eth"}, Depth: 7, ShardDepth: 2},
 				{Name: "eth-collide-rewards", Spec: &Spec{Chain: "eth", Collide: true, Rewards: true}, Depth: 5, ShardDepth: 2},
+				{Name: "eth-o2-life-cycle-deep", Spec: &Spec{Chain: "eth", Focus: true}, Depth: 9, ShardDepth: 2},
 			}
 		},
 	})
